@@ -70,7 +70,11 @@ def gen_n(rng, mode, limit=10 ** 10):
 
 
 def gen_fraction(rng):
+    # also just below / above a whole second by less than a microsecond:
+    # the whole number of seconds is still the one below (a double keeps
+    # 3e-7 s apart from the boundary for |t| <= 1e9)
     return rng.choice([0.5, 0.25, 0.75, 0.000001, 0.999999, 0.1,
+                       0.9999997, 0.9999996, 0.0000003,
                        round(rng.random(), 6)])
 
 
@@ -354,7 +358,7 @@ def build_point(spec, mode, shared):
         kw.update(hour_of_day=H, minute_of_hour=M, second_of_minute=S,
                   second_of_minute_decimal=frac)
         time_txt = "T%02d:%02d:%02d,%s" % (
-            H, M, S, ("%.6f" % frac)[2:].rstrip("0") or "0")
+            H, M, S, ("%.7f" % frac)[2:].rstrip("0") or "0")
     elif form == "m_dec":
         kw.update(hour_of_day=H, minute_of_hour=M,
                   minute_of_hour_decimal=S / 60.0)
